@@ -48,7 +48,16 @@ func (flags FrameFlags) Add(f FrameFlags) FrameFlags {
 
 // Del deletes f from frame flags.
 func (flags FrameFlags) Del(f FrameFlags) FrameFlags {
-	return flags ^ f
+	return flags &^ f
+}
+
+// with returns flags with f set or cleared.
+func (flags FrameFlags) with(f FrameFlags, on bool) FrameFlags {
+	if on {
+		return flags | f
+	}
+
+	return flags &^ f
 }
 
 type Frame interface {
